@@ -496,6 +496,25 @@ func runSlowCallbackHistory(c *mon.Ctx) {
 	if stop2 != nil {
 		guarded(c, h, "stop of the second listener", stop2)
 	}
+	// quick listen/stop cycles afterwards: the slow stop must not have left stale state behind
+	// (e.g. a late acknowledgement that makes the next stop return before its listener is cleared)
+	for cyc := 0; cyc < 40; cyc++ {
+		var st func()
+		var lerr error
+		if !guarded(c, h, "Listen in a quick cycle", func() {
+			st, lerr = ins[0].Listen(func([]byte, int32) {}, drivers.ListenConfig{})
+		}) {
+			return
+		}
+		if lerr != nil {
+			c.Violation("mc:relisten-after-slow-stop", fmt.Sprintf("quick listen/stop cycle %d after a stop that overlapped a 1.5 s callback: Listen directly after a returned stop failed: %v", cyc, lerr), desc, "listening again works", lerr.Error())
+			return
+		}
+		if !guarded(c, h, "stop in a quick cycle", st) {
+			return
+		}
+		c.Count("mc_quick_cycles_after_slow_stop", 1)
+	}
 }
 
 // checkMidicatHistory is the offline checker over the recorded event log.
